@@ -24,6 +24,12 @@ def tunnel_jobs(ctx):
 
 def run(ctx):
     cov = tunnel_jobs(ctx)
+    import h3_jobs
+    h3 = h3_jobs.h3_job(ctx)
+    h3a = h3.pop("h3_assumptions")
+    cov.update(h3)
+    cov["evaluations"] += h3["h3_evaluations"]
+    cov["traces_validated_against_impl"] += h3["h3_evaluations"]
     cov["rule"] = ("TLC enumerates Tunnel.tla: every (authenticator/SNI configuration x request kind x Proxy-Authorization class x outbound outcome) "
                    "point for one request, and every ordered pair over a reduced domain on one HTTP/2 session with all interleavings; each initial "
                    "state is exported with the set of outcomes the specification allows and replayed into the real Tunnel + HttpDownstream + "
@@ -31,8 +37,7 @@ def run(ctx):
                    "records every outbound call. Compared: status, X-Warning code, X-Adguard-Vpn-Error, proxy-authenticate, number of responses, "
                    "forwarder calls. Non-trivial = not (valid credentials and successful connect); distinct by (protocol, config, kind, auth class, outcome, stream).")
     return ctx.finish("model_checking", cov, assumptions=[
-        "HTTP/3 is not driven (the QUIC codec needs a QUIC client); Tunnel and HttpDownstream are protocol independent",
         "the forwarder is scripted: 'no egress' means no call reached tcp_connector/make_udp_datagram_multiplexer/make_icmp_datagram_multiplexer",
         "where the statement leaves the outcome open (lower-case scheme, a wrong header on an SNI-authenticated connection, malformed headers without an authenticator) the specification lists every acceptable outcome",
         "trusted: TLC, the scripted forwarder and HTTP clients of the harness, the verif::tunnel door",
-    ])
+    ] + h3a)
